@@ -35,7 +35,16 @@ HOME_PARAMS = [('p_int', INT), ('p_str', STR), ('p_bool', BOOL)]
 ENUMERATORS = ['Red', 'Green', 'Blue']
 ENUMERATORS2 = ['Blue', 'Happy', 'Red']        # shares names with Color on purpose
 CONSTS = [('C_INT', INT, '42'), ('C_STR', STR, 'hello'), ('C_BOOL', BOOL, 'true')]
-HOMES = ('function', 'bridge', 'operation', 'derived')
+HOMES = ('function', 'bridge', 'operation', 'derived', 'state', 'transition')
+EVENT = 'event'            # the type of a variable holding a created event instance (inst<Event>)
+# state machines: {(key letters, 'instance'|'class'): [(numb, meaning, [(data item, type)])]}
+EVENTS = {('A', 'instance'): [(1, 'go', [('x', INT), ('msg', STR)]), (2, 'halt', [('flag', BOOL)]),
+                              (3, 'make', [('num', INT)]), (4, 'no op', [])],
+          ('A', 'class'): [(1, 'tick', [('n', INT)]), (2, 'tock', [])],
+          ('B', 'instance'): [(1, 'ping', [('txt', STR), ('num', INT), ('flag', BOOL)]), (2, 'pong', [])]}
+CREATION_EVENTS = {'A': [3]}
+# the home actions: the state Going is entered by A1, the transition action belongs to Going -[A2]-> Done
+HOME_EVENT_DATA = {'state': [('x', INT), ('msg', STR)], 'transition': [('flag', BOOL)]}
 
 
 def diagram():
@@ -64,6 +73,14 @@ def diagram():
     brgs.append(bp.Callable_('home_brg', INT, HOME_PARAMS, ''))
     d.ees = [('External', 'EX', brgs, 'pkg')]
     d.constants = [('Consts', list(CONSTS), 'pkg')]
+    for (kl, kind), evs in EVENTS.items():
+        events = [bp.Event(n, m, data) for n, m, data in evs]
+        states, txns = [], []
+        if (kl, kind) == ('A', 'instance'):
+            states = [('Idle', 1, '', ''), ('Going', 2, '', 'home_state'), ('Done', 3, '', ''), ('Made', 4, '', '')]
+            txns = [('Idle', 1, 'Going', None, ''), ('Going', 2, 'Done', '', 'home_transition'),
+                    (None, 3, 'Made', None, '')]
+        d.state_machines.append(bp.StateMachine(kl, kind, events, states, txns))
     return d
 
 
@@ -89,6 +106,8 @@ def home_instance(m, home):
         return m.select_any('S_BRG', lambda s: s.Name == 'home_brg')
     if home == 'operation':
         return m.select_any('O_TFR', lambda s: s.Name == 'home_op')
+    if home in ('state', 'transition'):
+        return m.select_any('SM_ACT', lambda s: s.Descrip == 'home_' + home)
     return m.select_any('O_DBATTR')
 
 
@@ -108,8 +127,9 @@ class Gen(object):
         self.scopes = [dict()]      # name -> type: INT/STR/BOOL/REAL/ENUM, ('inst', K), ('set', K), ('array', t)
         self.counter = 0
         self.in_loop = 0
-        self.has_self = home in ('operation', 'derived')
+        self.has_self = home in ('operation', 'derived', 'state', 'transition')
         self.has_params = home != 'derived'
+        self.home_params = HOME_EVENT_DATA.get(home, HOME_PARAMS)
         self.features = features    # None: everything
         self.decl_block = {}        # variable name -> statement node that declares it (for C06)
         self.retired = []           # names whose block has ended: free to be declared again
@@ -200,6 +220,42 @@ class Gen(object):
             node = om.icall(self.handle(r.choice(self.inst_vars('A'))[0]), n, items)
         return T(node, ty)
 
+    def event_statement(self, create):
+        '''generate / create event instance, to an instance, a class (assigner) or a creator'''
+        r = self.rng
+        targets = []
+        for n, t in self.inst_vars():
+            if (t[1], 'instance') in EVENTS:
+                targets.append(('instance', t[1], n))
+        if self.has_self:
+            targets.append(('instance', 'A', 'self'))
+        targets.append(('class', 'A', None))
+        targets.append(('creator', 'A', None))
+        kind, kl, var = r.choice(targets)
+        evs = EVENTS[(kl, 'class' if kind == 'class' else 'instance')]
+        if kind == 'creator':
+            evs = [e for e in evs if e[0] in CREATION_EVENTS[kl]]
+        numb, meaning, data = r.choice(evs)
+        label = '%s%s%d' % (kl, '_A' if kind == 'class' else '', numb)
+        items = list(data)
+        r.shuffle(items)
+        spec = om.event_spec(label, meaning, [(dn, self.expr(dt, 2)) for dn, dt in items] if (items or r.random() < 0.7) else None,
+                             ticked=(' ' in meaning) or r.random() < 0.6)
+        if kind == 'instance':
+            tgt = T(om.self_(), ('inst', 'A')) if var == 'self' else self.handle(var)
+        else:
+            tgt = kl
+            kind = r.choice(('class', 'assigner')) if kind == 'class' else kind
+        if kind == 'instance':
+            tgt.sem = None      # the target is related as a variable (R711 / R712), not as a value
+        if not create:
+            return om.generate_to(spec, tgt, kind)
+        evs = self.vars_of(lambda t: t == EVENT)
+        name = r.choice(evs)[0] if evs and r.random() < 0.4 else self.fresh('ev')
+        st = om.create_event(name, spec, tgt, kind)
+        self.declare(name, EVENT)
+        return st
+
     def legacy_keyword(self, inv):
         '''the optional statement keyword of the old syntax: bridge EE::f(..), transform KL::op(..) / inst.op(..)'''
         if self.rng.random() < 0.6:
@@ -239,9 +295,10 @@ class Gen(object):
             if e is not None:
                 return e
         if k < 0.42 and self.has_params:
-            ps = [pn for pn, pt in HOME_PARAMS if pt == ty]
+            ps = [pn for pn, pt in self.home_params if pt == ty]
             if ps:
-                return T(om.param(r.choice(ps)), ty)
+                word = 'param' if self.home not in HOME_EVENT_DATA or r.random() < 0.5 else 'rcvd_evt'
+                return T(om.param(r.choice(ps), word), ty)
         if k < 0.48:
             cs = [c for c in CONSTS if c[1] == ty]
             if cs:
@@ -314,6 +371,8 @@ class Gen(object):
         kinds = ['assign', 'assign', 'assign', 'attr', 'attr', 'create', 'create_nv', 'delete', 'relate', 'unrelate',
                  'select_from', 'select_from', 'select_related', 'select_related', 'invoke', 'invoke', 'array',
                  'return', 'stop']
+        if self.features is None or 'events' in self.features:
+            kinds += ['generate', 'generate', 'create_event', 'generate_pre']
         if depth > 0:
             kinds += ['if', 'if', 'while', 'foreach', 'foreach']
         if self.in_loop:
@@ -359,6 +418,9 @@ class Gen(object):
             return om.assign(T(om.field(h, a), t), self.expr(t, 2))
         if k == 'create':
             kl = r.choice(list(CLASSES))
+            have = set(t[1] for n, t in self.inst_vars())
+            if 'A' in have and 'B' in have and 'L' not in have and r.random() < 0.5:
+                kl = 'L'          # makes relate ... using possible
             name = self.fresh('i')
             self.declare(name, ('inst', kl))
             return om.create(name, kl)
@@ -379,7 +441,8 @@ class Gen(object):
                     opts.append((rel, fs, ts, ph, us))
             if not opts:
                 return None
-            rel, fs, ts, ph, us = r.choice(opts)
+            linked = [o for o in opts if o[4] != [None]]
+            rel, fs, ts, ph, us = r.choice(linked if linked and r.random() < 0.6 else opts)
             return om.relate(r.choice(fs), r.choice(ts), 'R%d' % rel, ph, r.choice(us), un=(k == 'unrelate'))
         if k == 'select_from':
             kl = r.choice(list(CLASSES))
@@ -419,9 +482,18 @@ class Gen(object):
             if e is None:
                 return None
             return om.invoke(e, self.legacy_keyword(e))
+        if k in ('generate', 'create_event'):
+            return self.event_statement(k == 'create_event')
+        if k == 'generate_pre':
+            evs = self.vars_of(lambda t: t == EVENT)
+            if not evs:
+                return None
+            return om.generate_preexisting(T(om.var(r.choice(evs)[0]), EVENT))
         if k == 'return':
             if self.home == 'derived':
                 return None
+            if self.home in HOME_EVENT_DATA:
+                return om.return_(None)
             return om.return_(self.expr(INT, 2))
         if k == 'stop':
             return om.control_stop() if r.random() < 0.3 else None
@@ -458,6 +530,13 @@ class Gen(object):
     def program(self, nstmts=None, depth=2):
         n = nstmts or self.rng.randint(2, 12)
         out = []
+        if self.rng.random() < 0.2 and (self.features is None or 'relate' in self.features):
+            # the three participants of the linked association R4, so that relate ... using is possible
+            for kl in ('A', 'B', 'L'):
+                name = self.fresh('i')
+                self.declare(name, ('inst', kl))
+                out.append(om.create(name, kl))
+            n += 3
         for _ in range(n * 3):
             if len(out) >= n:
                 break
@@ -469,6 +548,9 @@ class Gen(object):
                 break
         if self.home == 'derived':
             out.append(om.assign(T(om.field(T(om.self_(), ('inst', 'A')), 'der'), INT), self.expr(INT, 2)))
+        elif self.home in HOME_EVENT_DATA:
+            if not out or self.rng.random() < 0.2:
+                out.append(om.return_(None))
         elif out[-1].cls not in ('ReturnNode', 'ControlNode') if out else True:
             out.append(om.return_(self.expr(INT, 2)))
         return om.body(out)
